@@ -162,7 +162,7 @@ func valid(c *Case) bool {
 	for _, t := range Types {
 		okT = okT || t == c.T
 	}
-	if !okT || c.C < 1 || c.C > 8 || c.F < 0 || c.F > 256 || c.RO < 0 || c.RO > c.F || len(c.Bounds) != len(c.Writers)+1 ||
+	if !okT || c.C < 1 || c.C > 8 || c.F < 0 || c.F > 2048 || c.RO < 0 || c.RO > c.F || len(c.Bounds) != len(c.Writers)+1 ||
 		len(c.Readers)+len(c.Writers) > 16 || len(c.Readers)+len(c.Writers) < 1 || len(c.Yield) != len(c.Readers)+len(c.Writers) ||
 		c.Procs < 1 || c.Procs > 64 || c.Repeat < 1 || c.Repeat > 50 {
 		return false
@@ -319,6 +319,9 @@ func FP(c *Case) uint64 {
 func Gen(t *rapid.T) *Case {
 	c := &Case{T: rapid.SampledFrom(Types).Draw(t, "type"), C: rapid.IntRange(1, 4).Draw(t, "c")}
 	c.F = rapid.IntRange(0, 48).Draw(t, "f")
+	if rapid.IntRange(0, 3).Draw(t, "bigF") == 0 { // windows of hundreds of samples, with odd sizes
+		c.F = rapid.IntRange(100, 700).Draw(t, "fBig")
+	}
 	c.RO = rapid.IntRange(0, c.F).Draw(t, "ro")
 	total := rapid.IntRange(2, 16).Draw(t, "goroutines")
 	R := rapid.IntRange(0, total).Draw(t, "readers")
